@@ -113,7 +113,9 @@ func genC16(rt *rapid.T) c16Case {
 	}
 	c.Cause = rapid.SampledFrom(c16Causes).Draw(rt, "cause")
 	c.CauseAt = drawDur(rt, "causeAt")
-	c.Echo = rapid.SampledFrom([]string{"immediate", "immediate", "late", "never"}).Draw(rt, "echo")
+	// how the peer answers the library's Close frame: with the same payload (at once or 3 s later), not at all, or with a
+	// Close frame of its own that differs - another code, the code without the reason, no payload (closes that crossed)
+	c.Echo = rapid.SampledFrom([]string{"immediate", "immediate", "late", "never", "other-code", "code-only", "empty"}).Draw(rt, "echo")
 	if rapid.IntRange(0, 3).Draw(rt, "gate") == 0 {
 		c.GateAt = drawDur(rt, "gateAt")
 		c.GateFor = rapid.SampledFrom([]time.Duration{time.Millisecond, time.Second, 4 * time.Second, 6 * time.Second}).Draw(rt, "gateFor")
@@ -155,6 +157,16 @@ func runC16(t fataler, c c16Case) (string, c16Result) {
 			switch c.Echo {
 			case "immediate":
 				p.send(ref.Frame{Fin: true, Opcode: ref.OpClose, Payload: f.Payload})
+			case "other-code":
+				p.send(ref.Frame{Fin: true, Opcode: ref.OpClose, Payload: ref.ClosePayload(1001, "going away too")})
+			case "code-only":
+				pl := f.Payload
+				if len(pl) > 2 {
+					pl = pl[:2]
+				}
+				p.send(ref.Frame{Fin: true, Opcode: ref.OpClose, Payload: pl})
+			case "empty":
+				p.send(ref.Frame{Fin: true, Opcode: ref.OpClose})
 			case "late":
 				pl := f.Payload
 				e.Go(func() {
